@@ -1,43 +1,59 @@
 (* C01 -- compiled code means what the Hy program means.
-   Statements only; proofs are in Compiler/Correct*.v. *)
+   Statements only; proofs are in Compiler/Correct1.v, Correct2.v, Correct3.v. *)
 From Coq Require Import String.
 From HyV Require Import Compiler.Syntax Compiler.PySem Compiler.HySem Compiler.Compile
-  Compiler.PyFacts Compiler.HyFacts Compiler.Sim Compiler.Named Compiler.Correct1 Compiler.Run Compiler.Shape.
+  Compiler.PyFacts Compiler.HyFacts Compiler.Sim Compiler.Named Compiler.Correct1 Compiler.Correct2 Compiler.Correct3
+  Compiler.Run Compiler.Shape.
 
-(* The property over the modelled fragment: for every program, every fault oracle (which effect points
-   raise), every store and every fuel, running the compiled result and running the program under the
-   reference semantics give the same outcome (value, escaping exception class, break/continue, or both
-   out of fuel), the same effect trace in the same order, and the same user variables. *)
+(* [rel a b]: unless the reference run [a] exhausts its fuel, [a] and [b] have the same outcome (value,
+   escaping exception class, break, continue), the same effect trace in the same order, and the same
+   user variables.  Fuel bounds loop re-entries; the compiled code is given strictly more ([tfuel l]),
+   because a loop whose condition needs statements re-enters once more to leave. *)
+
+(* The property over the modelled source language, for every program. *)
 Definition C01_full : Prop := forall fault issub e r c',
   compile e (0%nat, false) = (r, c') ->
-  forall fuel s s' t, eqU s s' ->
-    rel (heval1 fault issub (hrec_of fault issub fuel) e s t) (run fault issub (rec_of fault issub fuel) r s' t).
+  forall l s s' t, eqU s s' ->
+    rel (heval1 fault issub (hrec_at fault issub l) e s t) (run fault issub (rec_at fault issub l) r s' t).
 
-(* Proved: the statement for every program built, in any nesting and to any depth, from constants,
-   variables, effectful calls, do, setv, setx, and, or, not, if and raise, provided Result.rename does not
-   fire while compiling it (ghost flag [snd c' = false]).  Missing for the full statement: the lemmas
-   for while/break/continue and try (their compiler and both semantics are modelled and compared with the
-   implementation, but not yet in the induction), and assignments whose value carries temporaries
-   (refuted below: the rename is unsound). *)
-Theorem C01_compile_correct_partial : forall fault issub e, frag1 e = true ->
-  forall c r c', compile e c = (r, c') -> snd c' = false ->
-  forall fuel s s' t, eqU s s' ->
-    rel (heval1 fault issub (hrec_of fault issub fuel) e s t) (run fault issub (rec_of fault issub fuel) r s' t).
-Proof. intros fault issub e H. exact (proj2 (layer1_correct fault issub e H)). Qed.
+(* Proved for EVERY program of the modelled source language -- constants, variables, effectful calls
+   (log k e), do, setv, setx, and, or, not, if, while with else, break, continue, raise,
+   try/except/else/finally -- nested arbitrarily and to any depth, every fault oracle (any subset of
+   effect points raises any exception class), every subclass relation, every store and every fuel:
+   the compiled result simulates the reference semantics, provided Result.rename did not fire during
+   the compilation (ghost flag [snd c' = false]).  What is missing for C01_full is exactly that
+   premise, and it cannot be dropped: see the refutation below.  Forms of the real language outside
+   the modelled source (calls with several arguments, operators, get/cut, let, for, comprehensions,
+   with, fn, return, match) are not covered by this theorem. *)
+Theorem C01_compile_correct_partial : forall fault issub e c r c',
+  compile e c = (r, c') -> snd c' = false ->
+  forall l s s' t, eqU s s' ->
+    rel (heval1 fault issub (hrec_at fault issub l) e s t) (run fault issub (rec_at fault issub l) r s' t).
+Proof. intros fault issub e. exact (proj2 (compile_correct_all fault issub e)). Qed.
 Print Assumptions C01_compile_correct_partial.
 
-(* non-vacuity: a depth-5 program mixing the layer-1 forms meets the premises *)
+(* non-vacuity: a program mixing every form, with a statement-needing loop condition and a try, compiles
+   without renaming; and its run is not excused by fuel exhaustion *)
+Definition C01_example : hexpr :=
+  HDo [HSetv 0 (HLog 1 (HConst (VInt 2)));
+       HSetv 4 (HConst (VBool true));
+       HWhile (HDo [HSetv 1 (HLog 2 (HVar 4)); HVar 1])
+              [HSetv 4 (HConst (VBool false));
+               HTry [HIf (HBool true [HVar 0; HDo [HSetv 2 (HLog 3 (HVar 0)); HVar 2]])
+                         (HRaise (HConst (VExn 2)))
+                         (HLog 4 (HNot (HVar 3)))]
+                    [(HOne 1, [HLog 5 (HConst (VInt 7)); HContinue])]
+                    None (Some [HLog 6 (HConst VNone)])]
+              (Some [HLog 7 (HConst (VInt 9))])].
 Example C01_premises_met :
-  let e := HDo [HSetv 0 (HLog 1 (HConst (VInt 2)));
-                HIf (HBool true [HVar 0; HDo [HSetv 1 (HLog 2 (HVar 0)); HVar 1]])
-                    (HLog 3 (HNot (HBool false [HVar 2; HSetx 3 (HLog 4 (HConst VNone))])))
-                    (HRaise (HConst (VExn 2)))] in
-  frag1 e = true /\ snd (snd (compile e (0%nat, false))) = false.
+  snd (snd (compile C01_example (0%nat, false))) = false /\
+  String.eqb (ref_run [] [(2, 1)]%nat 8 [VNone; VNone; VNone; VNone; VNone] C01_example)
+             "V N | 1 2 3 5 6 2 7 | I2 B0 I2 N B0" = true.
 Proof. split; vm_compute; reflexivity. Qed.
 
-(* Refuted on the faithful model (and reproduced on the real compiler by the harness):
-   (setv u0 (and u1 (do (setv u2 u0) u2))) with u0 = 5, u1 = 1 -- the temporary of `and` is renamed to u0,
-   so u0 is overwritten before the value's statements read it. *)
+(* Refuted on the faithful model (and reproduced on the real compiler by the harness, known finding
+   C01-result-rename): (setv u0 (and u1 (do (setv u2 u0) u2))) with u0 = 5, u1 = 1 -- the temporary of
+   `and` is renamed to u0, so u0 is overwritten before the value's statements read it. *)
 Theorem C01_rename_refuted : exists e vals, frag1 e = true /\
   String.eqb (ref_run [] [] 8 vals e) (model_run [] [] 8 vals e) = false.
 Proof.
@@ -45,4 +61,3 @@ Proof.
   split; vm_compute; reflexivity.
 Qed.
 Print Assumptions C01_rename_refuted.
-
